@@ -189,7 +189,7 @@ class Tokenizer:
                         if seen == n:
                             break
 
-        return [lines[n] for n in line_numbers]
+        return [lines.get(n, "") for n in line_numbers]
 
     def mark(self) -> Mark:
         return self._index
